@@ -287,7 +287,6 @@ fn std_offset_hours(tz: Tz) -> f64 {
     a.min(b) as f64 / 3600.0
 }
 
-/// 3-5. an accepted pair yields a zone and evaluates; physical ordering below 60 degrees
 thread_local! {
     /// whether `check_site` first evaluates the same coordinates under another explicit zone. Off
     /// where ANOTHER place is the history under test: the same coordinates evaluated just before
@@ -295,6 +294,7 @@ thread_local! {
     static SAME_COORDS_HISTORY: std::cell::Cell<bool> = const { std::cell::Cell::new(true) };
 }
 
+/// 3-5. an accepted pair yields a zone and evaluates; physical ordering below 60 degrees
 fn check_site(lat: f64, lon: f64, date: NaiveDate, rep: &mut Report) -> Result<(), String> {
     let coords = Coordinates::new(lat, lon).ok_or_else(|| format!("valid pair ({lat}, {lon}) rejected"))?;
     let loc = guarded(|| TzLocation::from_coords(coords)).map_err(|p| format!("TzLocation::from_coords({lat}, {lon}) panicked: {p}"))?;
